@@ -12,16 +12,28 @@ CFG = {'streams': [{'name': 'C08',
               'what_fails': 'lazy execution differs from the model of lazy*.rs'}],
  'rule': 'generated files with 2-5 stanzas (as C01) x permutations of their stanzas x sources; graphs compared up to renumbering; non-trivial = at '
          'least 3 stanzas and a scoped variable is used',
- 'explanation': 'Theorems: the two mechanisms that make lazy evaluation order independent are proved order independent. (1) scoped variables: '
-                'forcing the definitions of a scoped variable is invariant under permutation (success and every looked-up value); adding after '
-                'forcing is an error. (2) deferred graph operations: deferred edges are evaluated before deferred attributes whatever the push '
-                'order; deferred_ops_any_order / deferred_attrs_fail_any_order (Proofs/EvalPerm.v): edge insertions in any order give the SAME '
-                'graph, attribute insertions in any order give the same graph up to the listing order of attribute entries, and a conflict is found '
-                'in every order; lazy_eval_any_order_partial: the evaluation phase of the lazy interpreter on deferred statements with pure values '
-                'never fails and yields that graph in every push order. Direct stream: every permutation on the implementation.',
- 'partial': ['lazy_perm_invariant (whole-run invariance up to graph isomorphism) is not proved: the EXECUTION phase is missing (running the (stanza, '
-             'match) blocks in another order renumbers graph nodes and store locations: an equivariance argument); the evaluation-phase theorem '
-             'covers deferred statements whose values are pure (no scoped variables, no `(node)` calls). Explored by the direct permutation stream'],
+ 'explanation': 'Theorems. Reordering stanzas permutes the list of blocks (stanza, match) that run_lazy executes. WHOLE RUN on a fragment '
+                '(lazy_block_order_iso_partial, Proofs/BlockPerm*.v): if the run on ms succeeds then on every permutation ms\' the run succeeds from '
+                'some fuel on (same execution fuel, larger evaluation fuel: lazy_block_order_iso_two_fuels_partial) and the final graphs are isomorphic '
+                '(graph_iso r: r a bijection of node ids fixing the initial graph; attribute maps equal as maps after renaming node references; '
+                'edge vectors hold the renamed sinks); lazy_block_order_fail_partial: an error or a panic for one order excludes success for every '
+                'other order at every fuel; lazy_fuel_mono_partial: fuel only decides between out-of-fuel and THE outcome. Parts: (1) '
+                'lazy_block_shift_partial / lazy_block_swap_partial: one block started at other graph/store sizes runs in lockstep and appends the '
+                'same delta with shifted ids (two-run simulation over the whole execution phase; acyclic thunk store, frame depth and parameter '
+                'buffer restored); (2) lazy_exec_phase_perm_partial: any permutation of the execution phase = the canonical deltas of the blocks '
+                'laid out in list order, every configuration; (3) lazy_eval_extract_partial: a successful lazy evaluation phase read back as '
+                'store valuation + graph operations; renumbering of the laid-out operations by induction on the permutation; graph operations '
+                'commute with renumberings; deferred_ops_any_order. stdlib_call_ok_partial: the hypothesis on called functions holds for every '
+                'stdlib function but node/format/join. Earlier theorems kept: scoped-variable forcing is permutation invariant; deferred edge and '
+                'attribute operations give the same graph in every order. Direct stream: every permutation on the implementation.',
+ 'partial': ['lazy_block_order_iso (whole-run invariance up to graph isomorphism) is proved on the fragment: no scoped variables (blocks do not '
+             'communicate; STEP 4 with scoped-variable cells is not done: a reader before its definer makes the store non-acyclic by index and sets may '
+             'mix nodes of several blocks, so new forcing lemmas and an isomorphism up to re-sorting of sets are needed), called functions graph-pure and equivariant under '
+             'order-preserving renamings (all stdlib functions except node, format, join), globals only mention nodes of a closed initial graph, '
+             'no debug attributes (with a location attribute an edge created by two stanzas keeps the attribute of the statement evaluated first: '
+             'the property as stated fails there), no cancellation budget. The fuel needed by the permuted run may be larger (a thunk may be forced '
+             'first at a deeper nesting): the theorem gives success from some fuel on. '
+             'Outside the fragment the whole-run statement is explored by the direct permutation stream'],
  'assumptions': ['tree-sitter queries are an external: raw matches are recorded by calling QueryCursor::matches directly on the stanza queries and '
                  'on the merged file query',
                  'regex crate: modelled by Model/Regex.v on the generated sub-language (validated by stream C10rx); stdlib functions: Model/Stdlib.v '
